@@ -24,9 +24,10 @@ Relax(p, s, n) ==
        IN Relax(p, [lv |-> sw.lv, rv |-> sw.rv, sz |-> sw.sz, offs |-> sw.offs, total |-> sw.off, po |-> FALSE, ch |-> sw.ch], n + 1)
 
 \* ---- bytes
+AsmDeviation == ""        \* "" is the code; XCompileMC refutes "nonfix" (a negative operand's chain begins with PFIX)
 NibAt(v, k) == (v \div (16 ^ k)) % 16                 \* two's-complement nibble k (0..7) of a 32-bit value
 Chain(op, v, s) ==                                      \* the s bytes emitProgramBin writes for an instruction of resolved size s
-  (IF s > 1 THEN <<(IF v < 0 THEN 15 ELSE 14) * 16 + NibAt(v, s - 1)>> ELSE <<>>)
+  (IF s > 1 THEN <<(IF v < 0 /\ AsmDeviation # "nonfix" THEN 15 ELSE 14) * 16 + NibAt(v, s - 1)>> ELSE <<>>)
   \o [j \in 1..(IF s > 2 THEN s - 2 ELSE 0) |-> 14 * 16 + NibAt(v, s - 1 - j)]
   \o <<op * 16 + NibAt(v, 0)>>
 Word4(v) == <<v % 256, (v \div 256) % 256, (v \div 65536) % 256, (v \div 16777216) % 256>>
